@@ -133,10 +133,10 @@ def machine : Machine where
       | none => none
   skip := fun e => e.kind == "note"
 
-/-- family `panicscope` exists to exhibit known finding F10 (a coroutine that parks while it unwinds leaves
-    `thread::panicking()` wrong on its worker). Its consequences - poison decisions, a swallowed re-raise - are
-    arbitrary deviations from every model that takes `thread::panicking()` at its word, so this family is checked by
-    its oracles only and its traces are not replayed. -/
+/-- a family that is checked by its oracles only (its traces are not replayed): `paniccq`, whose cqueue events belong
+    to C16's model. (Before F10.patch `panicscope` was such a family too: under finding F10 - a coroutine that parks while
+    it unwinds leaves `thread::panicking()` wrong on its worker - poison decisions and re-raises deviate from every model
+    that takes `thread::panicking()` at its word. Since the patch it is replayed by `machine`.) -/
 def oracleOnly : Machine where
   St := Unit
   init := fun _ => .ok ()
